@@ -20,7 +20,7 @@ def run(mpath, quiet=False):
         env = dict(os.environ, VERIF_REPO=tmp)
         outs = {}
         for prop in m['property'] if isinstance(m['property'], list) else [m['property']]:
-            r = subprocess.run([sys.executable, os.path.join(HERE, 'check.py'), prop, '--no-evidence'], env=env, capture_output=True, text=True)
+            r = subprocess.run([sys.executable, os.path.join(HERE, 'check.py'), prop, '--no-evidence', '--tier', 'quick'], env=dict(env, VERIF_TIER='quick'), capture_output=True, text=True)
             outs[prop] = dict(rc=r.returncode, tail=[l for l in r.stdout.splitlines() if l.startswith(('VIOLATION', 'UNDECIDED', 'KNOWN'))][:6])
         return dict(name=os.path.basename(mpath), kind=m.get('kind', 'breaking'), results=outs)
     finally:
